@@ -168,8 +168,32 @@ def judge(ctx, text, family, base_accepted=None, junk=True):
 
 
 @st.composite
+def two_reactant_rule(draw):
+    """a rule over TWO reactant patterns; the edits address atoms of either one (and may join the two)"""
+    r1, r2 = draw(ruleast.rule()), draw(ruleast.rule())
+    for k, a in enumerate(r1['reactant']['atoms']):
+        a['label'] = 'a%d' % k
+    for k, a in enumerate(r2['reactant']['atoms']):
+        a['label'] = 'b%d' % k
+    l1 = [a['label'] for a in r1['reactant']['atoms']]
+    l2 = [a['label'] for a in r2['reactant']['atoms']]
+    sp = lambda: ' '
+    s0 = lambda: ''
+    parts = ['rule two{', ringast.render(dict(r1['reactant'], name='m1'), None, keyword='reactant'),
+             ringast.render(dict(r2['reactant'], name='m2'), None, keyword='reactant')]
+    edits = [ruleast.edit_text(e, l1, sp, s0) for e in r1['edits']] + [ruleast.edit_text(e, l2, sp, s0) for e in r2['edits']]
+    if draw(st.booleans()):
+        x, y = draw(st.sampled_from(l1)), draw(st.sampled_from(l2))
+        edits += ['form bond (%s, %s)' % (x, y), 'decrease number of radical (%s)' % x, 'decrease number of radical (%s)' % y]
+    order = draw(st.permutations(range(len(edits))))
+    return ' '.join(parts + [edits[i] for i in order] + ['}'])
+
+
+@st.composite
 def valid_text(draw):
     lay = draw(ringast.layout())
+    if draw(st.integers(0, 7)) == 0:
+        return draw(two_reactant_rule())
     if draw(st.integers(0, 2)) == 0:
         r = draw(ruleast.rule())
         return ruleast.render(r, lay)
